@@ -23,8 +23,6 @@ def den_value(expr_text):
 def expected_den(d, einsum, comp):
     cfg = metricsinfo.config_of(d, einsum)
     allc = metricsinfo.arch_components(d)
-    if sum(1 for c in allc.values() if comp in c) > 1:
-        return "ambiguous", "component name used in several configurations"
     info = allc.get(cfg, {}).get(comp)
     if info is None:
         return None, "component %s is not in the architecture of config %s" % (comp, cfg)
@@ -77,6 +75,19 @@ def check_records(ctx, recs):
             ok = den is not None and exp is not None and abs(den - exp) <= 1e-9 * abs(exp)
             ctx.ob(ok)
             ctx.stat("denominators")
+            if not ok and den is not None:
+                # known finding: one registry of components by name across configurations, the last configuration wins
+                cfgs = [c for c, comps in metricsinfo.arch_components(r["yaml"]).items() if x["comp"] in comps]
+                if len(cfgs) > 1 and cfgs[-1] != metricsinfo.config_of(r["yaml"], x["einsum"]):
+                    d2 = json.loads(json.dumps(r["yaml"]))
+                    for b in d2["bindings"][x["einsum"]]:
+                        if "config" in b:
+                            b["config"] = cfgs[-1]
+                    exp_last, _ = expected_den(d2, x["einsum"], x["comp"])
+                    if exp_last is not None and abs(den - exp_last) <= 1e-9 * abs(exp_last):
+                        f = ctx.match_finding({"predicates": {"component_name_in_several_configurations"}, "signature": "divisor-of-the-last-configuration-with-that-name"})
+                        if f:
+                            ctx.known(f, f["what"], failed_obligations=1); continue
             if not ok:
                 ctx.violation(dict(kind="time-denominator", yaml=r["yaml"], einsum=x["einsum"], component=x["comp"], emitted=x["text"], expected_divisor=exp, expected_why=why,
                                    reason="metrics[%r][%r][\"time\"] divides by %r, expected %r (%s)" % (x["einsum"], x["comp"], den, exp, why)), True)
@@ -126,6 +137,19 @@ def run(ctx):
     items.append(dict(gen="g13m", count=120 * k, modes=["metrics"], time=True))
     recs = pool.collect(ctx, items)
     check_records(ctx, recs)
+    # the known findings' witnesses are replayed on every run
+    for f in ctx.findings:
+        w = f.get("witness")
+        if not w:
+            continue
+        c = specs.compile_spec(w, "metrics")
+        if not c.ok:
+            ctx.notes.append("known finding %s: witness no longer compiles" % f["id"]); continue
+        before = len(ctx.known_hits)
+        check_records(ctx, [dict(gen="known:" + f["id"], idx=0, mode="metrics", hashseed="", yaml=w, ok=True, err_kind=None, err_msg=None, text=c.text,
+                                 time=metricsinfo.time_info(c.hf, w))])
+        if len(ctx.known_hits) == before:
+            ctx.notes.append("known finding %s: witness no longer fails - the defect may have been repaired; entry must be revisited" % f["id"])
 
 
 def replay(ctx, path):
